@@ -1168,6 +1168,65 @@ class G:
             yield f"{self.mode()} round {a} {p} {-r.randrange(1, 39)}"
 
 
+# ---------------------------------------------------------------------------------------------------------------------------------
+# request sequences: a library call must not depend on the calls made before it (a memo / cache / lazily initialised static keyed by
+# too little would make it).  `siblings(line)` yields requests that are "almost the same call" — to be issued right after `line` on the
+# same thread: the same request again, the same under another thread mode, the same value in another representation (trailing zeros),
+# the related conversion (f64 <-> f32), an equal-length / extended text for the parsers.
+DEC_PAIR_POS = {  # op -> positions of (coefficient, fractional digits) token pairs
+    "add": [3, 5], "sub": [3, 5], "mul": [3, 5], "div": [3, 5], "rem": [3, 5], "cadd": [3, 5], "csub": [3, 5], "cmul": [3, 5],
+    "cdiv": [3, 5], "crem": [3, 5], "mulr": [3, 5], "divr": [3, 5], "cmp": [2, 4], "quant": [2, 4], "rkyv": [2, 4], "hasheq": [2, 4],
+    "round": [2], "cround": [2], "str": [2], "fmt": [2], "tof64": [2], "tof32": [2], "ratio": [2], "hash": [2], "hashfeed": [2],
+    "toint": [3], "unop": [3], "serde": [2],
+    "iadd": [5], "isub": [5], "imul": [5], "idiv": [5], "irem": [5], "icadd": [5], "icsub": [5], "icmul": [5], "icdiv": [5],
+    "icrem": [5], "idivr": [5], "iquant": [5], "ieq": [5], "icmp": [5],
+}
+
+
+def siblings(line, r):
+    t = line.split()
+    if len(t) < 3 or t[0] == "threads" or line.startswith("Dec!"):
+        return
+    op = t[1]
+    yield line                                                  # the same call again
+    if t[0] in MODES:
+        yield " ".join([r.choice([m for m in MODES if m != t[0]])] + t[1:])     # … under another mode of the same thread
+    for pos in DEC_PAIR_POS.get(op, []):
+        try:
+            a, p_ = int(t[pos]), int(t[pos + 1])
+        except (ValueError, IndexError):
+            continue
+        k = r.randrange(1, 4)
+        if p_ + k <= 18 and abs(a) * 10 ** k <= MAX:            # the same value written with k more trailing zeros
+            u = list(t); u[pos], u[pos + 1] = str(a * 10 ** k), str(p_ + k)
+            yield " ".join(u)
+        if p_ >= 1 and a % 10 == 0:                             # … or with one less
+            u = list(t); u[pos], u[pos + 1] = str(a // 10), str(p_ - 1)
+            yield " ".join(u)
+    if op in ("tof64", "tof32"):
+        yield " ".join([t[0], "tof32" if op == "tof64" else "tof64"] + t[2:])
+    if op == "fromf32" and len(t) == 3:
+        yield f"{t[0]} fromf64 {t[2]}"                          # the f64 with the same (zero-extended) bit pattern
+    if op == "fromf64" and len(t) == 3 and t[2].isdigit() and int(t[2]) < 2 ** 32:
+        yield f"{t[0]} fromf32 {t[2]}"
+    if op in ("parse", "macrofold") and len(t) == 3 and t[2] != "-":
+        hx = t[2]
+        yield f"{t[0]} {op} {hx}00"                             # the text followed by a NUL byte
+        yield f"{t[0]} {op} {hx}20"                             # … by a blank
+        last = int(hx[-2:], 16)
+        if 0x30 <= last <= 0x39:                                # another text of the same length (same allocation size)
+            yield f"{t[0]} {op} {hx[:-2]}{0x30 + (last - 0x30 + 1) % 10:02x}"
+
+
+def with_siblings(lines, r, frac=0.08):
+    out = []
+    for l in lines:
+        out.append(l)
+        if r.random() < frac:
+            out.extend(siblings(l, r))
+    return out
+
+
 GENERATORS = {
     "C01": lambda g, n: g.c01(n), "C02": lambda g, n: g.c02(n), "C03": lambda g, n: g.c03(n),
     "C04": lambda g, n: g.c04(n), "C05": lambda g, n: g.c05(n), "C06": lambda g, n: g.c06(n),
